@@ -1174,6 +1174,9 @@ def remove_duplicate_functions(source: str, preserve: Collection[str]) -> str:
 
     delete = set()
     renamings = {}
+    unusable_names = (
+        tracing.get_imported_names(root) | constants.BUILTIN_FUNCTIONS | constants.PYTHON_KEYWORDS
+    )
 
     for funcdefs in function_defs.values():
         if len(funcdefs) == 1:
@@ -1185,6 +1188,10 @@ def remove_duplicate_functions(source: str, preserve: Collection[str]) -> str:
         else:
             replacement = min(funcdefs, key=lambda node: node.lineno)
             preserved_nodes = {replacement}
+
+        if replacement.name in unusable_names:
+            # _fix_variable_names does not redirect anything to such a name
+            continue
 
         replacement_arguments = [arg.arg for arg in core.walk(replacement.args, ast.arg)]
         for node in funcdefs - preserved_nodes:
